@@ -55,7 +55,7 @@ def gen_db(rng, tier, seed):
         subs.append([rng.randrange(3), rng.randrange(100), rng.random() < 0.5])  # bearer index, char pick, prefer_notify
     for _ in range(rng.randint(0, 8)):
         pushes.append([rng.choice(['notify_subscribers', 'indicate_subscribers', 'notify_subscriber', 'indicate_subscriber', 'indicate_subscriber_bearer']),
-                       rng.randrange(100), rng.choice([-4, -3, -2, 0, 1, 10]), rng.randrange(3), rng.choice([-1, -1, -1, 0, 1, 2])])
+                       rng.randrange(100), rng.choice([-999, -4, -3, -2, 0, 1, 10]), rng.randrange(3), rng.choice([-1, -1, -1, 0, 1, 2])])  # -999: an explicit empty value
     if rng.random() < 0.25:
         # fan-out: several bearers subscribed for indications of one characteristic, one of them possibly never confirming
         nclients = 2
@@ -252,7 +252,7 @@ def run_db(case):
                 vh = layout[si]['chars'][ci]['value_handle']
                 bi %= len(bearers)
                 tb = bearers[bi]
-                value = bytes((pick * 3 + k) & 0xFF for k in range(max(0, tb['mtu'] + dlen)))
+                value = bytes((pick * 3 + k) & 0xFF for k in range(max(0, tb['mtu'] + dlen))) if dlen != -999 else b''
                 for k in fired:
                     fired[k].clear()
                 for b_ in bearers:
@@ -495,7 +495,7 @@ def _compare_discovery(sim, b, services, attrs, layout, server, case):
 
 
 # --------------------------------------------------------------------------------------
-SCRIPT_KINDS = ['valid', 'valid', 'empty_list', 'repeat_handle', 'decreasing', 'handle_ffff', 'wrong_type', 'error_other', 'not_found', 'short_entry', 'no_advance']
+SCRIPT_KINDS = ['valid', 'valid', 'empty_list', 'repeat_handle', 'decreasing', 'descending_within', 'handle_ffff', 'wrong_type', 'error_other', 'not_found', 'short_entry', 'no_advance']
 
 
 def gen_adversarial(rng, tier, seed):
@@ -620,6 +620,9 @@ def _scripted(op, start, end, kind, ulen, n):
         return wrap([entry(h), entry(h)])
     if kind == 'decreasing':
         return wrap([entry(min(h + 5, 0xFFFF)), entry(h)])
+    if kind == 'descending_within':
+        # first entry at the requested start, last entry just below it: resuming "after the last handle" makes no progress
+        return wrap([entry(h), entry(max(1, h - 1))])
     if kind == 'handle_ffff':
         return wrap([entry(0xFFFF)])
     if kind == 'wrong_type':
